@@ -313,7 +313,7 @@ def execute(sc):
     for ls in sc['loops']:
         ctl.spawn(ls['name'], loop_thread, ls)
     ctl.start()
-    if not ctl.finished.wait(sc.get('wall', 6.0)):
+    if not rt.wait_finished(ctl, sc.get('wall', 6.0)):
         ctl.status = 'stuck'
     ctl.log('End', status=ctl.status if ctl.status in ('ok', 'hang') else 'stuck')
     return rt.result_payload(ctl, {'invocations': inv_counter[0]})
